@@ -137,7 +137,8 @@ var (
 		tokenconvertermoduletypes.ModuleName,
 		liquiditypoolmoduletypes.ModuleName,
 		liquidityincentivemoduletypes.ModuleName,
-		swapmoduletypes.ModuleName,
+		// swapmoduletypes.ModuleName must be able to receive: the IBC swap middleware has the
+		// transfer module deliver incoming funds to the swap module account.
 		feemoduletypes.ModuleName,
 	}
 
